@@ -18,6 +18,14 @@ def modes(tier):
     return out
 
 
+def self_controls(prog, facts):
+    from . import perturb
+
+    def rule(c, p2):
+        rules_rep.check_c06(c, p2, inputs.make_interp(p2, fuel=40000000), [(True, 2, 'None', None, None, False)])
+    return perturb.run_controls([('filter active from the third step',
+                                  lambda f: perturb.perturb_int(f, 'GameState::remove_passing_like_actions', 3, 2, ty='usize'), rule, 'C06')], facts)
+
 def run(ctx, prog, facts, tier):
     I = inputs.make_interp(prog, fuel=40000000)
     ms = modes(tier)
